@@ -221,7 +221,8 @@ F_capacity(e) ==
   IF e.op = "shrink_to_fit" THEN T(e.cap >= e.len, "cap_low")
   ELSE IF e.ret = "ok" THEN T(e.cls # "small" \/ e.cap >= e.len + e.n, "cap_low")
                               \cup T(e.cls \in {"small", "huge"}, "reserve_ok_impossible")
-  ELSE {}
+  \* a request that cannot be satisfied leaves the queue unchanged: also its capacity
+  ELSE T("cap_after" \notin DOMAIN e \/ e.cap_after = e.cap_before, "reserve_err_changed")
 
 \* ------------------------------------------------------------------ per-op judgement (shared by MCQueue and TraceQueue)
 \* single-queue operations: [f |-> failure tags, n |-> expected successor contents]
